@@ -10,7 +10,7 @@ from checks import sbcfam
 
 ID = "C01"
 LEVEL = "exploration"
-RULE = ("random structure family: gases, rattled/defective/substituted crystals, two crystals in one cell, crystallites, "
+RULE = ("random structure family: gases, rattled/defective/substituted crystals, two crystals in one cell, shared-species stacks, crystallites, nanotubes, ribbons, bilayers, molecules on slabs, amorphous packings, primitive cells, monolayers, "
         "vacancy shells, molecules in a box, slabs; 1-150 atoms (quick) / 1-300 (thorough); all 8 pbc masks; as-built / "
         "rotated / sheared / degenerate (zero non-periodic vectors) cells and zero vectors along periodic axes (must raise "
         "ValueError); wrapped / lattice-shifted / translated-outside positions; varied bond_threshold, pos_tol, "
